@@ -105,16 +105,16 @@ class C02(HistoryProperty):
         prefixes_read = {n["key"] for n in spec["nodes"] if n["k"] == "opt"}
 
         def root_forced(nid):
-            n = by_id[nid]
-            forced = set()
-            while n["k"] == "derive":
-                if n["how"] == "with_options":
-                    forced |= set(U.leaf_paths(n["options"]))
-                n = by_id[n["base"]]
-            if n["k"] == "dataset":
-                forced |= set(U.leaf_paths(n.get("options") or {}))
-            # only leaves nobody reads through a proper prefix (a whole-section read is over-keyed by design)
-            return sorted(p for p in forced if not any(p != q and p.startswith(q + ".") for q in prefixes_read))
+            # leaves whose caller value cannot reach any reader below this root (forced on every path), and that no
+            # dictionary of the history references through a template
+            paths = gen.caller_irrelevant_paths(spec, nid)
+            refs = set()
+            for op in case["ops"]:
+                for p in U.all_paths(op["o"]):
+                    v = U.lookup(p, op["o"])[1]
+                    if isinstance(v, str):
+                        refs.update(U.template_refs(v))
+            return [p for p in paths if not any(r == p or r.startswith(p + ".") or p.startswith(r + ".") for r in refs)]
 
         def cached(name):
             n = by_name.get(owner_of(name))
